@@ -111,3 +111,46 @@ Proof.
   destruct (Nat.eqb (List.length l) (List.length bs)); cbn [negb]; [|reflexivity].
   destruct (seq_children _ es) as [es' ok]. destruct ok; reflexivity.
 Qed.
+
+(* ---- names and batch-size bookkeeping never touches the tensors ---- *)
+Lemma seq_children_holds : forall f es,
+  Forall (fun kv => holds_tensor (fst (f (snd kv))) = holds_tensor (snd kv)) es ->
+  existsb (fun kv => holds_tensor (snd kv)) (fst (seq_children f es)) = existsb (fun kv => holds_tensor (snd kv)) es.
+Proof.
+  intros f. induction es as [|[key c] r IH]; intros HF; [reflexivity|].
+  inversion HF as [|? ? Hc Hr]; subst. cbn [snd] in Hc. rewrite seq_children_cons.
+  destruct (f c) as [c' okc]. cbn [fst] in Hc. destruct okc.
+  - specialize (IH Hr). destruct (seq_children f r) as [r' ok]. cbn [fst] in *. cbn. now rewrite Hc, IH.
+  - cbn. now rewrite Hc.
+Qed.
+
+Lemma erase_children_holds : forall es,
+  existsb (fun kv => holds_tensor (snd kv)) (erase_children es) = existsb (fun kv => holds_tensor (snd kv)) es.
+Proof.
+  unfold erase_children. induction es as [|[key c] r IH]; [reflexivity|].
+  cbn [map existsb fst snd]. rewrite IH. f_equal. destruct c; reflexivity.
+Qed.
+
+Lemma set_names_holds : forall t v, holds_tensor (fst (set_names t v)) = holds_tensor t.
+Proof.
+  induction t as [sh dd|k bs dv nm es IH] using tree_ind2; intros v; [reflexivity|].
+  cbn [set_names]. destruct v as [l|]; [|cbn; apply erase_children_holds].
+  destruct (Nat.eqb (count_none l) (List.length bs)); [cbn; apply erase_children_holds|].
+  destruct (names_unique l); cbn [negb]; [|reflexivity].
+  destruct (Nat.eqb (List.length l) (List.length bs)); cbn [negb]; [|reflexivity].
+  match goal with |- context [seq_children ?g es] => set (g0 := g) end.
+  assert (Hes : existsb (fun kv => holds_tensor (snd kv)) (fst (seq_children g0 es)) = existsb (fun kv => holds_tensor (snd kv)) es).
+  { apply seq_children_holds. eapply Forall_impl; [|exact IH]. intros [key c] IHc. cbn [snd] in *.
+    subst g0. cbn beta. destruct c as [sh dd|ck cbs cdv cnm ces]; [reflexivity|].
+    destruct (l ++ skipn (List.length l) (names_of (Node ck cbs cdv cnm ces))) as [|[n|] [|n2 tl]]; try apply IHc.
+    - destruct (Nat.eqb (List.length cbs) 0); [apply IHc|reflexivity].
+    - cbn. apply erase_children_holds. }
+  destruct (seq_children g0 es) as [es' ok]. cbn [fst] in Hes. destruct ok; cbn; exact Hes.
+Qed.
+
+Lemma Forall2_in_r : forall (A B : Type) (R : A -> B -> Prop) l l', Forall2 R l l' -> forall b, In b l' -> exists a, In a l /\ R a b.
+Proof.
+  intros A B R l l' H. induction H as [|a b l l' Hab H IH]; intros x Hin; [contradiction|].
+  destruct Hin as [<-|Hin]; [exists a; split; [now left|exact Hab]|].
+  destruct (IH _ Hin) as (a' & Ha & Hr). exists a'. split; [now right|exact Hr].
+Qed.
